@@ -275,6 +275,8 @@ type c13Case struct {
 	V     vexpr
 	Cross bool // written in another package's set
 	Class string
+	// ResShape: extra results of the injector (0 none, 1 error, 2 func(), 3 func() and error)
+	ResShape int
 }
 
 // c13Program renders a group of cases into one program. Each case k has injector InitK
@@ -319,6 +321,14 @@ func c13Program(id string, cases []c13Case) *Program {
 		typ := q(v.Type, false)
 		if strings.Contains(typ, "lib.") {
 			usesLibInInj = true
+		}
+		switch c.ResShape {
+		case 1:
+			typ = "(" + typ + ", error)"
+		case 2:
+			typ = "(" + typ + ", func())"
+		case 3:
+			typ = "(" + typ + ", func(), error)"
 		}
 		if c.Class != "reject" && v.Param == "" {
 			fmt.Fprintf(&homeSrc, "var _ = tr.Home(%q, %s)\n", key, q(v.Expr, true))
